@@ -5,6 +5,7 @@ import SpecModel.Wire
 import SpecModel.Codec.Norm
 import SpecModel.Codec.Gob
 import SpecModel.Codec.Idem
+import SpecModel.Codec.GobSafe
 
 namespace SpecModel.CodecOps
 open SpecModel SpecModel.Codec
@@ -29,11 +30,18 @@ def cleanOp (j : Lean.Json) : Except String String := do
   let doc ← Wire.jsonField j "doc"
   pure (if cleanB doc then "clean" else "unclean")
 
+/-- `{"op":"gobsafe","doc":<wire JSON: the encoding BEFORE transport>}` ↦ `safe` | `unsafe`: the executable test
+(`gobSafeB`, proved to imply `GobSafe`) for the hypothesis of the whole-document gob theorem -/
+def gobSafeOp (j : Lean.Json) : Except String String := do
+  let doc ← Wire.jsonField j "doc"
+  pure (if gobSafeB doc then "safe" else "unsafe")
+
 def op (name : String) (j : Lean.Json) : Except String String :=
   match name with
   | "norm" => normOp j
   | "gob" => gobOp j
   | "clean" => cleanOp j
+  | "gobsafe" => gobSafeOp j
   | _ => .error s!"bad-op:unknown {name}"
 
 end SpecModel.CodecOps
